@@ -500,7 +500,7 @@ impl Monitor for C20 {
     }
     fn histories(&self, tier: Tier) -> u64 {
         // every listing x every boundary size, then random sizes
-        (LISTINGS.len() * SIZES.len()) as u64 + tier.pick(0, 60_000)
+        (LISTINGS.len() * SIZES.len()) as u64 + tier.pick(160, 60_000)
     }
     fn mandatory(&self) -> Vec<&'static str> {
         let mut v = vec!["walks_completed", "walks_with_default_limit", "walks_with_limit_above_max", "walks_with_limit_zero", "states_with_more_than_30_items", "states_with_no_items", "listings_with_expired_entries_interleaved"];
